@@ -39,7 +39,8 @@ SHARD = 120
 # model parameters: the five repairs found with this check are in /repo (6afb079 skip_self, 3959fba parent_reuse, e202d3b
 # parents_seen, 671469c parents_nsp, e49a6c9 mono).  All True = the code as it is now.  C05_OLD=skip_self,... evaluates the model of
 # the code WITHOUT a repair (only useful to replay an old defect against a reverted copy:  C05_OLD=mono VERIF_REPO=<copy> ./vcheck C05 quick).
-FIXES = {"skip_self": True, "parents_seen": True, "parent_reuse": True, "parents_nsp": True, "mono": True}
+FIXES = {"skip_self": True, "parents_seen": True, "parent_reuse": True, "parents_nsp": True, "mono": True,
+         "ident_some": True}   # not a repair: True = _start_times tests "_ident[1] is not None" (the code); False = truthiness
 for _k in filter(None, os.environ.get("C05_OLD", "").split(",")):
     FIXES[_k] = False
 BTIME0 = 1500000000
@@ -68,6 +69,25 @@ def _chain_hangs(tab, pid, cache):
             return True
         seen.add((cur, ))
         cur = pp
+
+
+def _zero_ticks(rng, tab):
+    """start tick 0 is a legal identity (init, kthreadd, PID 1/2 of a container): give it real weight."""
+    r = rng.random()
+    if r < 0.12:                       # the first processes of the boot: everything listed early is at tick 0
+        k = rng.randint(1, max(1, len(tab) // 2))
+        for e in sorted(tab)[:k]:
+            e[2] = 0
+    elif r < 0.2:                      # one process and its parent, both at tick 0
+        e = rng.choice(tab)
+        e[2] = 0
+        for f in tab:
+            if f[0] == e[1]:
+                f[2] = 0
+    elif r < 0.25:
+        for e in tab:
+            e[2] = min(e[2], rng.choice([0, 0, 1]))
+    return tab
 
 
 def _random_table(rng):
@@ -113,6 +133,11 @@ def _random_table(rng):
         for e in tab:
             e[2] = tab[0][2]
         motif.append("eqticks")
+    if rng.random() < 0.25:
+        before = [e[2] for e in tab]
+        _zero_ticks(rng, tab)
+        if before != [e[2] for e in tab]:
+            motif.append("tick0")
     if rng.random() < 0.5:
         rng.shuffle(tab)
     return tab, motif
@@ -257,10 +282,81 @@ def _vanish_case(rng):
                vanish=victims)
 
 
+CLOCK_PATTERNS = {
+    "ct-set": lambda b1, b2: [["ct"], ["set", b1]], "ct-set-boot": lambda b1, b2: [["ct"], ["set", b1], ["boot"]],
+    "set-boot-ct": lambda b1, b2: [["set", b1], ["boot"], ["ct"]], "boot-ct-set": lambda b1, b2: [["boot"], ["ct"], ["set", b1]],
+    "set-ct-boot": lambda b1, b2: [["set", b1], ["ct"], ["boot"]],
+    "ct-set-boot-set-boot": lambda b1, b2: [["ct"], ["set", b1], ["boot"], ["set", b2], ["boot"]],
+    "set": lambda b1, b2: [["set", b1]], "set-boot": lambda b1, b2: [["set", b1], ["boot"]],
+    "ct-set-ct": lambda b1, b2: [["ct"], ["set", b1], ["ct"]], "none": lambda b1, b2: [], "ct": lambda b1, b2: [["ct"]]}
+
+
+def _clock_case_tick0(rng):
+    """The caller is PID 1 or 2 and its start tick is exactly 0; its parent and some children are at tick 0 too."""
+    sec = 100
+    pid = rng.choice([1, 2, 2])
+    tab = [[1, 0, 0], [2, rng.choice([0, 1, 1]), 0]]
+    nxt = 3
+    for _ in range(rng.choice([1, 2, 3, 5])):
+        st = rng.choice([0, 0, 1, 2, 1 * sec, 2 * sec, 30 * sec, 90 * sec])
+        tab.append([nxt, pid, st])
+        if rng.random() < 0.4:
+            tab.append([nxt + 1, nxt, st + rng.choice([0, 0, 1, 50 * sec])])
+        nxt += 2
+    if rng.random() < 0.3:
+        tab.append([nxt, 3 - pid, rng.choice([0, 5])])
+    delta = rng.choice([1, 2, 50, 100, 1000, -1, -2, -50, -100, -1000])
+    pat = rng.choice(["ct-set-boot", "ct-set-boot", "ct-set-boot", "ct-set", "set-boot-ct", "ct-set-boot-set-boot", "none", "ct", "set-boot"])
+    evs = CLOCK_PATTERNS[pat](BTIME0 + delta, BTIME0 - delta)
+    prior = None
+    if rng.random() < 0.3 and any(e[0] == "ct" for e in evs):
+        prior = rng.choice(PRIOR_CALLS)
+        evs = [[prior] if e[0] == "ct" else e for e in evs]
+    op = rng.choice(OPS)
+    cache = 1 if op in ("parent", "parents") and rng.random() < 0.5 else None
+    if rng.random() < 0.3:
+        rng.shuffle(tab)
+    c = _mk(op, tab, pid, 0, any(e[0] == "ct" for e in evs), cache, [], "clock0-%s-%s%s" % (op, pat, "-prior_" + prior if prior else ""))
+    c["clock"] = evs
+    return c
+
+
+def _tick0_exhaustive():
+    """Every table over PIDs {1,2} x ppid in {1,2,unlisted 0} x start tick in {0,1}, every caller, all four calls -- once with
+    a cold object and once after [create_time(); clock step +100 s; psutil.boot_time()]."""
+    import itertools
+    out = []
+    P = [1, 2]
+    per = [(pp, st) for pp in P + [0] for st in (0, 1)]
+    for combo in itertools.product(per, repeat=2):
+        tab = [[p, pp, st] for p, (pp, st) in zip(P, combo)]
+        for pid, _, st in tab:
+            for op in OPS:
+                out.append(_mk(op, tab, pid, st, False, None, [], "exh-tick0-" + op))
+                c = _mk(op, tab, pid, st, True, None, [], "exh-tick0-clock-" + op)
+                c["clock"] = [["ct"], ["set", BTIME0 + 100], ["boot"]]
+                out.append(c)
+    return out
+
+
+def _unknown_ident_case(rng):
+    """The caller's identity could not be read when the object was created (_ident[1] is None)."""
+    tab, motif = _random_table(rng)
+    if len(tab) < 2:
+        tab = [[1, 0, 0], [5, 1, 0], [8, 5, 20]]
+    e = rng.choice(tab)
+    op = rng.choice(OPS)
+    c = _mk(op, tab, e[0], e[2], False, min(x[0] for x in tab) if rng.random() < 0.5 else None, [], "unknown-ident-" + op)
+    c["unknown_ident"] = True
+    return c
+
+
 def _clock_case(rng):
     """One Process object, create_time() cached or not, the btime line of /proc/stat steps, psutil.boot_time() is or is
     not called, then the call.  Start ticks are whole seconds so that ticks/CLK + btime is exact in floats (ties included)."""
     sec = 100
+    if rng.random() < 0.35:
+        return _clock_case_tick0(rng)
     S = rng.choice([50, 200, 1000]) * sec
     root_s = max(0, S - rng.choice([1, 5, 40, 200]) * sec)
     tab = [[1, 0, min(root_s, S)]]
@@ -322,7 +418,7 @@ def _vanish_exhaustive():
 
 
 def gen_cases(rng, tier):
-    n_rand = {"quick": 700, "thorough": 14000, "search": 2500}[tier]
+    n_rand = {"quick": 500, "thorough": 14000, "search": 2500}[tier]
     max_hang = {"quick": 40, "thorough": 400, "search": 40}[tier]
     cases = []
     hang = 0
@@ -340,6 +436,7 @@ def gen_cases(rng, tier):
                 for op in OPS:
                     cases.append(_mk(op, tab, pid, st, False, None, [], "exh-" + op))
         cases.extend(_vanish_exhaustive())
+        cases.extend(_tick0_exhaustive())
     # ---- multi-step histories (warm process_iter() cache) and vanish points
     n_hist = {"quick": 300, "thorough": 4000, "search": 800}[tier]
     n_van = {"quick": 250, "thorough": 4000, "search": 600}[tier]
@@ -349,6 +446,8 @@ def gen_cases(rng, tier):
         cases.append(_vanish_case(rng))
     for _ in range({"quick": 300, "thorough": 4000, "search": 800}[tier]):
         cases.append(_clock_case(rng))
+    for _ in range({"quick": 30, "thorough": 400, "search": 60}[tier]):
+        cases.append(_unknown_ident_case(rng))
     # ---- random
     for _ in range(n_rand):
         tab, motif = _random_table(rng)
@@ -399,8 +498,8 @@ def gen_cases(rng, tier):
 
 # ------------------------------------------------------------------ Coq terms
 def _fx():
-    return "(mk_fixes %s %s %s %s %s)" % (G.bo(FIXES["skip_self"]), G.bo(FIXES["parents_seen"]), G.bo(FIXES["parent_reuse"]),
-                                          G.bo(FIXES["parents_nsp"]), G.bo(FIXES["mono"]))
+    return "(mk_fixes %s %s %s %s %s %s)" % (G.bo(FIXES["skip_self"]), G.bo(FIXES["parents_seen"]), G.bo(FIXES["parent_reuse"]),
+                                             G.bo(FIXES["parents_nsp"]), G.bo(FIXES["mono"]), G.bo(FIXES["ident_some"]))
 
 
 PRIOR_CALLS = ("children", "children_rec", "parent", "parents", "as_dict")
@@ -432,7 +531,7 @@ def clock_events(case):
 def coq_term(case):
     tab = G.lst(["(%s,%s,%s)" % (G.z(p), G.z(pp), G.z(s)) for p, pp, s in case["tab"]])
     evs = G.lst([t for t in (_hev(e, case) for e in clock_events(case)) if t])
-    obj = "(mk_obj %s %s %s %s)" % (G.z(case["pid"]), G.z(case["ident"]), G.z(BTIME0), evs)
+    obj = "(mk_obj %s %s %s %s %s)" % (G.bo(not case.get("unknown_ident")), G.z(case["pid"]), G.z(case["ident"]), G.z(BTIME0), evs)
     gone, goneb = vanish_sets(case)
     return "run_%s %s %s %s %s %s %s" % (case["op"], _fx(), tab, G.zs(gone), G.zs(goneb), G.opt(case["cache"], G.z), obj)
 
@@ -585,7 +684,24 @@ def impl_run(case, coq, env):
             # ---- the caller object, created while its PID belonged to the process started at tick `ident`
             cur = {e[0]: e for e in tab}.get(pid)
             _write_stat(root, pid, cur[1] if cur else 0, ident)
-            obj = psutil.Process(pid)
+            if case.get("unknown_ident"):
+                # the start time cannot be read while the object is created (EACCES): _ident[1] is None
+                ro = builtins.open
+                cstat = os.path.join(root, str(pid), "stat")
+
+                def denying_open(file, *a, **kw):
+                    if file == cstat:
+                        raise PermissionError(13, "Permission denied", file)
+                    return ro(file, *a, **kw)
+                builtins.open = denying_open
+                try:
+                    obj = psutil.Process(pid)
+                finally:
+                    builtins.open = ro
+                assert obj._ident[1] is None
+            else:
+                obj = psutil.Process(pid)
+                assert obj._ident[1] is not None and int(round(obj._ident[1] * clk)) == ident
             # ---- clock history on this object: create_time() calls, steps of the btime line, psutil.boot_time() calls
             for ev in clock_events(case):
                 if ev[0] == "ct":
